@@ -278,6 +278,56 @@ impl ZooMsg for LX7 {
     }
 }
 
+// array of composite elements (SIZE > ALIGN) with a validity rule, in a struct and as vector items
+#[flat(default = true)]
+#[derive(Clone, Copy)]
+pub struct Entry {
+    pub id: u32,
+    pub enabled: Bool,
+    pub kind: Mode,
+}
+fn entry_gen(g: &mut Gen) -> Val {
+    Val::R(vec![Val::I(g.int(32, false)), Val::B(g.boolean()), Val::T(g.pick(3))])
+}
+fn entry_mk(v: &Val) -> Entry {
+    Entry { id: v.field(0).int() as u32, enabled: Bool::from(v.field(1).boolean()), kind: mk_mode(v.field(2)) }
+}
+fn entry_rd(e: &Entry) -> Val {
+    Val::R(vec![Val::I(e.id as i128), rd_bool(&e.enabled), rd_mode(&e.kind)])
+}
+
+#[flat(sized = false, default = true)]
+pub struct Entries {
+    pub head: [Entry; 3],
+    pub more: FlatVec<[Entry; 2], u16>,
+}
+impl ZooMsg for Entries {
+    const NAME: &'static str = "Entries";
+    fn gen(g: &mut Gen) -> Val {
+        let head = Val::R((0..3).map(|_| entry_gen(g)).collect());
+        let n = g.len();
+        let more = Val::L((0..n).map(|_| Val::R(vec![entry_gen(g), entry_gen(g)])).collect());
+        Val::R(vec![head, more])
+    }
+    fn emplace_val<'b>(bytes: &'b mut [u8], v: &Val) -> Result<&'b mut Self, Error> {
+        let h = v.field(0);
+        Self::new_in_place(
+            bytes,
+            EntriesInit {
+                head: [entry_mk(h.field(0)), entry_mk(h.field(1)), entry_mk(h.field(2))],
+                more: flatty::vec::FromIterator(v.field(1).list().iter().map(|x| [entry_mk(x.field(0)), entry_mk(x.field(1))])),
+            },
+        )
+    }
+    fn read(&self) -> Val {
+        Val::R(vec![Val::R(self.head.iter().map(entry_rd).collect()), rd_vec(&self.more, |a| Val::R(a.iter().map(entry_rd).collect()))])
+    }
+    fn tweak(&mut self, g: &mut Gen) {
+        self.head[g.pick(3) as usize].enabled = Bool::from(g.boolean());
+        tweak_vec(&mut self.more, g, |g| [entry_mk(&entry_gen(g)), entry_mk(&entry_gen(g))]);
+    }
+}
+
 // smallest variant last
 #[flat(sized = false, default = true)]
 pub enum LastUnit {
